@@ -1,12 +1,13 @@
-\* C13 valid scope (quick): whole messages, body streams, writers; every cut set of at most 2 cuts + one byte per recv
+\* C13 valid scope (quick): whole messages, body streams, writers; every single cut position + one byte per recv
 SPECIFICATION Spec
 CONSTANTS
   MaxTransfer = 4096
   ReservedIndex = 1024
   LineBuf = 4096
   KF = {}
-  Msgs <- ValidQuick
-  MaxCuts = 2
+  Scope = "valid-quick"
+  Msgs <- ScopeMsgs
+  MaxCuts = 1
   Bytewise = TRUE
   ReadSizes = {1, 2, 5, 1000000}
   Cap = 65535
